@@ -25,6 +25,7 @@ EXHAUSTIVE = {
                  "squeeze 0/1 singleton patterns N<=5": "complete"},
 }
 NPINT_ARGS = True     # a quarter of the cases pass their integer arguments as NumPy integers (core.Ctx.begin)
+STRIDED_ARGS = True   # a quarter of the cases pass every array argument as a strided, non-contiguous view (core.Ctx.begin)
 WATCHDOG = {"quick": 600, "thorough": 3000}
 
 
